@@ -336,7 +336,7 @@ impl Engine for C16 {
     }
     fn runs(&self, tier: Tier) -> u64 {
         match tier {
-            Tier::Quick => 12_000,
+            Tier::Quick => 24_000,
             Tier::Thorough => 500_000,
         }
     }
